@@ -43,8 +43,7 @@ def generate(seed, tier):
                     "r.shift %d %d %d" % (a, b, rng.randint(-8 * sc, 8 * sc))]
         for i in range(0, len(ops), 300):
             cases.append(["case frac%d_%d double %d" % (sc, i, sc)] + ops[i:i + 300])
-    # 2. exhaustive multi-range / range-set histories over the universe 0..6; the coordinate type rotates
-    #    with the history number and the seed (seeds 1..3 together run every history at every type)
+    # 2. exhaustive multi-range / range-set histories over the universe 0..6, for int, unsigned and double
     pairs_all = [(a, b) for a in range(U) for b in range(U)]
     pairs_ord = [(a, b) for a in range(U) for b in range(a, U)]
     kinds = ["add", "restrict", "filter"]
@@ -61,12 +60,13 @@ def generate(seed, tier):
             n += 1
             continue
         n += 1
-        ty = TYPES[(n + seed) % 3]
         ops = []
         for (k, a, b) in seq:
             ops.append("mr.%s 0 %d %d" % (k, a, b))
             ops.append("rs.%s 0 %d %d" % (k, a, b))
-        cases.append(["case ex%d %s" % (n, ty)] + ops)
+        # quick: every history at every coordinate type; thorough (length 3): the type rotates
+        for ty in (TYPES if tier != "thorough" else [TYPES[(n + seed) % 3]]):
+            cases.append(["case ex%d %s" % (n, ty)] + ops)
     # 3. random histories up to length 12 over 0..24 with 4 registers, copies/assignments and clears
     nrand = 40000 if tier == "thorough" else 3000
     for i in range(nrand):
